@@ -79,7 +79,10 @@ Inductive label :=
 | LCheck (i : nat) | LFlipFail (i : nat) | LPlogRm (i : nat) | LUnlock (i : nat) | LCleanBlobs (i : nat) | LCleanReg (i : nat)
 | LRollback (i : nat) | LCrash (i : nat)
 | LLockExpire (l : N) | LAge (l : N) | LPrio (c : nat)
-| LAddNode (l : N).     (* commitAddedNodes of some transaction registers a brand-new node (logical id = blob id, version 1) *)
+| LAddNode (l : N)      (* commitAddedNodes of some transaction registers a brand-new node (logical id = blob id, version 1) *)
+| LPermute (i : nat) (pd : list (wkind * handle)).
+   (* the undo batch of rollback() is written in the order of a fresh classifyModifiedNodes() call, i.e. of a Go map
+      iteration: any order of the pending undo batch is possible *)
 
 (* ------------------------------------------------------------------ helpers *)
 
@@ -90,6 +93,13 @@ Definition pc_eqb (a b : pcT) : bool :=
   | PRestoring, PRestoring | PRolling, PRolling | PAborted, PAborted => true
   | _, _ => false
   end.
+
+Definition wkind_eqb (a b : wkind) : bool :=
+  match a, b with WClaim, WClaim | WMark, WMark | WFlip, WFlip | WTouch, WTouch | WUndo, WUndo | WRestore, WRestore => true | _, _ => false end.
+Definition pend_eqb (p q : wkind * handle) : bool := wkind_eqb (fst p) (fst q) && handle_eqb (snd p) (snd q).
+(* same entries, same length (a reordering) *)
+Definition perm_of (a b : list (wkind * handle)) : bool :=
+  Nat.eqb (length a) (length b) && forallb (fun x => existsb (pend_eqb x) a) b && forallb (fun x => existsb (pend_eqb x) b) a.
 
 Definition upd_lids (t : txn) : list N := map (fun x => fst (fst x)) (t_upd t).
 Definition rem_lids (t : txn) : list N := map fst (t_rem t).
@@ -378,6 +388,14 @@ Definition step (hy : hyps) (s : state) (lab : label) : option state :=
       if fresh_id s l
       then Some (mkSt (sreg s ++ [added_handle l]) (sblobs s ++ [l]) (slocks s) (stxs s) (shist s))
       else None
+  | LPermute i pd =>
+      match get_tx s i with
+      | Some t =>
+          if live t && pc_eqb (t_pc t) PRolling && perm_of (t_pend t) pd
+          then Some (put s i (with_pend t PRolling pd))
+          else None
+      | None => None
+      end
   end.
 
 Fixpoint exec (hy : hyps) (s : state) (ls : list label) : option state :=
@@ -521,7 +539,16 @@ Definition accept1 (hy : hyps) (s : state) (o : obs) : option state :=
       end
   | ORollback i => step hy s (LRollback i)
   | OWrites i wr =>
-      if pc_eqb (pc_of s i) PRolling && handles_eqb (pend_handles s i) wr then exec hy s (writes i (length wr)) else None
+      match get_tx s i with
+      | Some t =>
+          (* the pending undo batch, in the order in which the implementation wrote it *)
+          let pd := flat_map (fun h => match find (fun p => handle_eqb (snd p) h) (t_pend t) with Some p => [p] | None => [] end) wr in
+          match step hy s (LPermute i pd) with
+          | Some s1 => if pc_eqb (pc_of s1 i) PRolling && handles_eqb (pend_handles s1 i) wr then exec hy s1 (writes i (length wr)) else None
+          | None => None
+          end
+      | None => None
+      end
   | OCrash i torn => match exec hy s (writes i torn) with Some s1 => step hy s1 (LCrash i) | None => None end
   | OEnv l => match l with LLockExpire _ | LAge _ | LPrio _ | LAddNode _ => step hy s l | _ => None end
   end.
